@@ -173,6 +173,8 @@ probe_datainfo(const char *api, uint16_t tag, uint16_t ref, info_fn fn, void *ct
         viol("datainfo:count-fails", "%s(%u,%u): the block-count query fails although the element exists (%d stored block(s))", api, tag, ref, next);
         return;
     }
+    if (total == 0 && slen == 0)
+        return; /* an element of no bytes (a Vdata without records that was attached for writing): no block to report */
     if (total != next) {
         viol("datainfo:wrong-count", "%s(%u,%u): reports %d block(s), the independent reader finds %d", api, tag, ref, total, next);
         return;
@@ -658,8 +660,8 @@ out:
 }
 
 /* ------------------------------------------------------------------ the alphabet */
-enum { OP_PUT, OP_DUP, OP_DEL, OP_LINKED, OP_EXT, OP_COMP, OP_APPEND, OP_VS, OP_VSAPPEND, OP_VG, OP_VGADD, OP_GR, OP_SD, OP_SDAPPEND, OP_AN, OP_REOPEN, OP_SYNC, OP_NOPS };
-static const char *OPN[] = {"put", "dup", "del", "linked", "ext", "comp", "append", "vs", "vsappend", "vg", "vgadd", "gr", "sd", "sdappend", "an", "reopen", "sync"};
+enum { OP_PUT, OP_DUP, OP_DEL, OP_LINKED, OP_EXT, OP_COMP, OP_APPEND, OP_VS, OP_VSAPPEND, OP_VG, OP_VGADD, OP_GR, OP_SD, OP_SDAPPEND, OP_AN, OP_REOPEN, OP_SYNC, OP_VSRENAME, OP_NOPS };
+static const char *OPN[] = {"put", "dup", "del", "linked", "ext", "comp", "append", "vs", "vsappend", "vg", "vgadd", "gr", "sd", "sdappend", "an", "reopen", "sync", "vsrename"};
 
 static int
 elem_exists(int r)
@@ -707,6 +709,11 @@ enum_ops(mc_op *out, int max)
     }
     for (int i = 0; i < g_nvs; i++)
         ADD(OP_VSAPPEND, i, 2);
+    if (g_nvs) {
+        ADD(OP_VSRENAME, 0, 0); /* shorter name */
+        ADD(OP_VSRENAME, 0, 1); /* shorter class */
+        ADD(OP_VSRENAME, 0, 2); /* longer name */
+    }
     if (g_nvg < 2)
         ADD(OP_VG, 0, 0);
     for (int i = 0; i < g_nvg; i++)
@@ -880,6 +887,24 @@ apply(const mc_op *op)
             rc = VSwrite(vs, rec, a1, FULL_INTERLACE);
             if (VSdetach(vs) == FAIL || rc != a1)
                 return fail_op(op, "VSwrite/VSdetach");
+            break;
+        }
+        case OP_VSRENAME: {
+            /* an existing Vdata gets another name or class: its header changes size in either direction */
+            int32 vs = VSattach(fid, g_vsref[a0], "w");
+            if (vs == FAIL)
+                return fail_op(op, "VSattach");
+            char cur[VSNAMELENMAX + 1] = "";
+            if (a1 == 1) {
+                VSgetclass(vs, cur);
+                rc = VSsetclass(vs, strlen(cur) > 1 ? "s" : "longer class");
+            }
+            else {
+                VSgetname(vs, cur);
+                rc = VSsetname(vs, a1 == 0 ? (strlen(cur) > 1 ? "v" : "vdx") : (strlen(cur) > 8 ? "vdy" : "vdata renamed"));
+            }
+            if (VSdetach(vs) == FAIL || rc == FAIL)
+                return fail_op(op, "VSsetname/VSsetclass/VSdetach");
             break;
         }
         case OP_VG: {
